@@ -64,7 +64,9 @@ class C10(Prop):
         ser = feature_series(case)
         if case["xcontainer"] == "numpy":
             vals = [math.nan if v is None else float(v) for v in fvalues(case)]
-            dt = np.int64 if case["kind"] == "int" else float
+            # an integer feature stays an integer column (numpy's bin-width estimators treat integers specially); kinds
+            # with nulls never come here as integers: generate() forces the polars container for them
+            dt = np.int64 if case["kind"].startswith("int") and all(v is not None for v in vals) else float
             return np.column_stack([np.array(vals, dtype=dt), np.array(case["other"], dtype=dt if dt is np.int64 else float)]), 0
         return pl.DataFrame({"f": ser, "g": case["other"]}), "f"
 
@@ -390,6 +392,8 @@ class C10(Prop):
                     c[key] = case[key][:i] + case[key][i + 1:]
                 if case["w"] is not None:
                     c["w"] = case["w"][:i] + case["w"][i + 1:]
+                if case.get("preds"):
+                    c["preds"] = [col[:i] + col[i + 1:] for col in case["preds"]]
                 yield c
 
 
